@@ -13,13 +13,14 @@ RULE = ("seeded blackbox-free circuits x node n (input / internal / output / fun
         "subsets; distinct = canonical net + node + endpoints; non-trivial = n's function depends on >= 2 startpoints")
 PROBES = ["sp=1", "sp=2", "sp=3", "sp=4", "sp=5", "sp=7", "sp=8", "sensitivity_0", "n_is_input", "n_is_output",
           "unsat_steps>=2", "sensitize_none", "sensitize_witness", "endpoints_subset", "influence", "sensitivity", "influence_list_form"]
-ASSUMPTIONS = ["<= 8 startpoints in the cone of n", "exact mode only (approx=False); the supergates=True variant of "
+ASSUMPTIONS = ["<= 11 startpoints in the cone of n for the transforms and sensitivity(), <= 6 for influence / avg_sensitivity", "exact mode only (approx=False); the supergates=True variant of "
                "influence is not judged"]
 
 
 def gen(rng, tier):
     big = rng.random() < 0.25
-    net = G.gen_net(rng, n_inputs=(5, 8) if big else (1, 5), n_gates=(2, 12), types=G.swarm_types(rng),
+    huge = big and rng.random() < 0.25
+    net = G.gen_net(rng, n_inputs=(9, 11) if huge else ((5, 8) if big else (1, 5)), n_gates=(2, 12), types=G.swarm_types(rng),
                     max_arity=rng.randint(2, 5) if not big else rng.randint(3, 8), constants=0.2,
                     name_style=rng.choice(("plain", "plain", "underscore")), input_outputs=0.1, min_outputs=1,
                     parity_bias=rng.choice((0.0, 0.3)))
@@ -74,7 +75,7 @@ def run(case, ctx):
         sp = sorted(x for x in cone if nodes[x][0] == "input")
         if not sp:
             continue
-        if len(sp) > 8:
+        if len(sp) > 11:
             raise Skip("cone too wide")
         k = len(sp)
         ctx.probe(f"sp={k}")
@@ -135,6 +136,8 @@ def run(case, ctx):
         if got_sens != want_sens:
             ctx.violate("C11.sensitivity", f"sensitivity({n}) = {got_sens}, expected {want_sens} ({k} startpoints)", dict(sig, sp=k))
         # ---- influence / avg_sensitivity
+        if k > 8:
+            ctx.probe("sp>8")
         if k <= 6:
             infl = ctx.call("C11.influence_raises", sig, cg.props.influence, c, n, approx=False)
             ctx.probe("influence")
